@@ -55,16 +55,17 @@ class EmuCheck(Check):
         evg = Check.record(self, groups)
         return [[decorate_csr(e) for e in evs] for evs in evg]
 
-    def program_group(self, gid, words, base, regs0, seed, steps, data=None, ip=0, entry=0, variant=64, exts="MA"):
+    def program_group(self, gid, words, base, regs0, seed, steps, data=None, ip=0, entry=0, variant=64, exts="MA", moves=None, run=1):
         bs = []
         for w in words:
             bs += word_bytes(w)
         g = [{"case": gid, "op": "emunew", "mode": "rv", "variant": variant, "exts": exts, "base": base,
               "image": [{"off": 0, "bytes": bs}], "data": data or [], "entry": entry, "ip": ip,
-              "regs0": [{"key": k, "val": v} for k, v in sorted(regs0.items())], "seed": seed, "ins": [], "moves": [], "run": 1}]
+              "regs0": [{"key": k, "val": v} for k, v in sorted(regs0.items())], "seed": seed, "ins": [], "moves": moves or [],
+              "bmoves": [], "run": run}]
         for _ in range(steps):
             g.append({"case": gid, "op": "step"})
-        g.append({"case": gid, "op": "final", "run": 1})
+        g.append({"case": gid, "op": "final", "run": run})
         return g
 
     # ---- program generators (shapes only) ---------------------------------
@@ -261,7 +262,52 @@ class C05(EmuCheck):
         new2 = [e for e in events if e["op"] == "emunew" and e["run"] == 2]
         if not new2 or not any(new2[0]["movesok"]):
             return None
-        return repr((group[0]["ins"], new2[0]["moves"], new2[0]["bmoves"], new2[0]["movesok"]))
+        return repr((group[0]["ins"], group[0]["image"], new2[0]["moves"], new2[0]["bmoves"], new2[0]["movesok"]))
+
+    def real_blocks(self, rng, tier):
+        """straight-line blocks of real instructions over x5..x9 and one data window (x5 = base), each followed by a
+        terminating branch; random move requests; original and reordered block run from the same state"""
+        out = []
+        R = [6, 7, 8, 9]
+        n = 250 if tier == "quick" else 5000
+        for bi in range(n):
+            words = []
+            for _ in range(rng.randrange(3, 8)):
+                c = rng.random()
+                rd, rs1, rs2 = rng.choice(R), rng.choice(R + [5, 0]), rng.choice(R + [0])
+                if c < 0.30:
+                    words.append(i_type(0x13, rng.choice([0, 4, 6, 7]), rd, rs1, rng.randrange(-8, 64)))
+                elif c < 0.50:
+                    words.append(r_type(0x33, rng.choice([0, 4, 6, 7]), rng.choice([0, 0, 1]), rd, rs1, rs2))
+                elif c < 0.62:
+                    words.append(i_type(0x03, rng.choice([0, 1, 2, 3, 4]), rd, 5, rng.choice([0, 4, 8, 12])))
+                elif c < 0.76:
+                    words.append(s_type(0x23, rng.choice([0, 1, 2, 3]), rs1=rng.choice([5, 5, 5] + R), rs2=rs2, imm=rng.choice([0, 4, 8, 12])))
+                elif c < 0.80:
+                    words.append(u_type(0x17, rd, rng.getrandbits(20)))
+                elif c < 0.85:
+                    words.append(r_type(0x2F, 3, rng.choice([0, 1, 4, 8]) << 2, rd, 5, rs2))
+                elif c < 0.89:
+                    words.append(0x0FF0000F)                       # fence
+                elif c < 0.93:
+                    words.append(i_type(0x73, rng.choice([1, 2]), rd, rs1, 0x340))
+                elif c < 0.96:
+                    words.append(b_type(0x63, rng.choice([0, 1]), rs1, rs2, 4))   # branch to the next instruction
+                else:
+                    words.append(i_type(0x13, 0, 5, 5, 8))         # moves the data window
+            words.append(b_type(0x63, rng.choice([0, 1, 4]), rng.choice(R), rng.choice(R), -4 * len(words)))   # back to the block start
+            nins = len(words)
+            moves = [[0, rng.randrange(nins), rng.randrange(nins)] for _ in range(rng.choice([2, 4, 6]))]
+            base = rng.choice(CODE_BASES)
+            basev = sum(b << (8 * j) for j, b in enumerate(base))
+            regs0 = {"x5": le8((basev + 0x800) & ~7)}
+            seed = rng.randrange(1 << 30)
+            data = [{"off": 0x800 + 4, "bytes": [(5 * j + bi) % 256 for j in range(6)]}] if rng.random() < 0.5 else []
+            gid = "rb%d" % bi
+            g = self.program_group(gid, words, base, regs0, seed, nins, data=data, run=1)
+            g += self.program_group(gid, words, base, regs0, seed, nins, data=data, moves=moves, run=2)
+            out.append(g)
+        return out
 
     def abs_group(self, gid, ins, moves, bmoves, seed, nsteps, entry=0, ip=0):
         g = []
@@ -308,6 +354,8 @@ class C05(EmuCheck):
             n = len(g[0]["ins"])
             for s in range(2 if (tier == "thorough" or i in flagged) else 1):
                 gs.append(self.abs_group("h%d_%d" % (i, s), g[0]["ins"], moves, [], rng.randrange(1 << 30), n))
+        # blocks of real RV64IMA instructions: seeded move requests, behaviour of original vs reordered block
+        gs += self.real_blocks(rng, tier)
         # multi-block codes: instruction moves and block moves
         multi = [h for h in hs if len(h["kinds"]) >= 2]
         for i in range(100 if tier == "quick" else 2000):
